@@ -352,11 +352,27 @@ def _collect(s, check, results, stats):
             check.engine_error(f"C02: reference terminal and pyte disagree ({d}) | case {c}")
 
 
+def contract_probe(n_family=700, n_random=250):
+    """concrete histories for the deductive contract of render_to_terminal: when an obligation is refuted (the ghost-terminal proof has no
+    model to replay) these histories on the reference terminal supply the failing input, if there is one"""
+    fam = FAMILY_CACHE()
+    step = max(1, len(fam) // n_family)
+    out = []
+    for c in fam[::step] + [rand_case(s) for s in range(n_random)]:
+        r = _judge(c, False)
+        if r["clause"]:
+            out.append((r["clause"], dict(history=c), r["detail"], {"kind": "suite", "module": MOD, "case": c}))
+            if len(out) >= 3:
+                break
+    return out
+
+
 def deductive(check, tier):
     """tier 2 (DESIGN 9/C02): the real render_to_terminal re-establishes screen == array and the cache/screen invariant from
     ANY state satisfying the invariant -> every history of renders and resizes, by induction"""
     import contracts.fullscreen as FS
     from pyvc.verify import verify
+    FS.fs_render.probe = contract_probe
     verify(FS.fs_render, tier, check)
     check.assume("deductive layer: blessed capabilities at row granularity (move addresses the cursor; a line's string written at column 0 "
                  "overwrites len(line) cells; clear_eol / clear_bol erase to the end / start of the row); BaseWindow.height/width (1-line "
